@@ -112,7 +112,21 @@ def abandoned_iterator_programs(draw):
 
 
 @st.composite
+def respec_programs(draw):
+    kinds = draw(st.lists(st.sampled_from(['cores', 'memory', 'disk', 'a']), min_size=2, max_size=3, unique=True))
+    first = {k: draw(st.sampled_from([1.5, 2.5, 0.25])) for k in kinds}
+    second = {k: draw(st.sampled_from([2, 3, 2 ** 60 + 1])) for k in kinds}
+    if draw(st.booleans()):
+        first, second = second, first
+    acts = [{'name': 'rs', 'steps': [{'op': 'respec', 'first': first, 'second': second, 'pause': draw(st.sampled_from([0.5, 1, 2]))}]},
+            {'name': 'tk', 'steps': [{'op': 'sleep', 'd': 0.25}] * draw(st.integers(1, 6))}]
+    return {'start': 0, 'objs': {}, 'roots': acts}
+
+
+@st.composite
 def cases(draw, tier):
+    if draw(st.integers(0, 19)) == 0:
+        return {'prog': draw(respec_programs()), 'junk': draw(st.integers(0, 10000))}
     if draw(st.integers(0, 9)) == 0:
         return {'prog': draw(abandoned_iterator_programs()), 'junk': draw(st.integers(0, 10000))}
     if draw(st.integers(0, 4)) == 0:
